@@ -4,6 +4,7 @@ import Rie.Oracle.Env
 import Rie.Oracle.Sanitize
 import Rie.Oracle.DirectInvoke
 import Rie.Oracle.Supervisor
+import Rie.Oracle.Sys
 
 open Rie.Oracle
 
@@ -13,6 +14,7 @@ def models : List (String × Model) :=
 
 def main (args : List String) : IO UInt32 := do
   match args with
+  | ["sys"] => runNModel sysModel
   | [name] =>
     match models.lookup name with
     | some m => runModel m
